@@ -56,6 +56,16 @@ func (f *Func) Defs() *defInfo {
 	if r.Body == nil {
 		return d
 	}
+	// named results start with their zero value: an assignment in the body is never their only definition
+	if r.Type != nil && r.Type.Results != nil {
+		for _, fld := range r.Type.Results.List {
+			for _, nm := range fld.Names {
+				if o := info.Defs[nm]; o != nil && nm.Name != "_" {
+					d.sites[o] = append(d.sites[o], defSite{kind: "zero", node: fld})
+				}
+			}
+		}
+	}
 	rootObj := func(x ast.Expr) types.Object {
 		for {
 			switch v := ast.Unparen(x).(type) {
@@ -152,6 +162,23 @@ func (d *defInfo) singleDef(o types.Object) (defSite, bool) {
 		return s[0], true
 	}
 	return defSite{}, false
+}
+
+// soleAssign: the only assignment of a variable that otherwise only has its zero-value declaration.
+func (d *defInfo) soleAssign(o types.Object) (defSite, bool) {
+	var out defSite
+	n := 0
+	for _, s := range d.sites[o] {
+		switch s.kind {
+		case "zero":
+		case "assign":
+			out = s
+			n++
+		default:
+			return defSite{}, false
+		}
+	}
+	return out, n == 1
 }
 
 // ---------------------------------------------------------------------------------------------
@@ -353,7 +380,17 @@ func zeroOfDeclared(fn *Func, obj types.Object) (string, bool) {
 		}
 		return !found
 	})
-	if !found {
+	namedResult := false
+	if root.Type != nil && root.Type.Results != nil {
+		for _, fld := range root.Type.Results.List {
+			for _, nm := range fld.Names {
+				if root.Info().Defs[nm] == obj {
+					namedResult = true
+				}
+			}
+		}
+	}
+	if !found && !namedResult {
 		return "", false
 	}
 	// only the captured-result idiom: the variable is assigned nowhere but inside function literals (an
@@ -382,7 +419,7 @@ func zeroOfDeclared(fn *Func, obj types.Object) (string, bool) {
 		return true
 	}
 	ast.Inspect(root.Body, scan)
-	if direct {
+	if direct && !namedResult {
 		return "", false
 	}
 	switch u := obj.Type().Underlying().(type) {
@@ -1114,6 +1151,9 @@ func (p *Program) compositeOfIn(fn *Func, x ast.Expr) (*ast.CompositeLit, *Func)
 				continue
 			}
 			ds, ok := fn.Defs().singleDef(obj)
+			if !ok {
+				ds, ok = fn.Defs().soleAssign(obj) // (a named result or `var x T` that is assigned exactly once)
+			}
 			if !ok || ds.kind != "assign" {
 				return nil, nil
 			}
